@@ -73,7 +73,18 @@ Definition lazy_iters : list str :=
     [109; 111; 100; 101; 108; 46; 97; 100; 100; 105; 116; 105; 111; 110; 97; 108; 95; 112; 114; 111; 112; 101; 114; 116; 105; 101; 115; 46; 108; 97; 122; 121; 95; 105; 109; 112; 111; 114; 116; 115] ].
 Definition is_lazy_site (s : loop_site) : bool := str_eqb (ls_file s) lazy_file && mem_str (ls_iter s) lazy_iters && ls_known s && is_output (ls_effect s).
 Definition known_lazy_unsorted (s : loop_site) : bool := is_lazy_site s && negb (ls_sorted s).
-Definition loop_ok_or_known (s : loop_site) : bool := loop_ok s || known_lazy_unsorted s.
+(* known finding int_enum_twin_order: templates/int_enum.py.jinja iterates the name->value dict of an int enum in insertion order; the dict of
+   the LAST same-named declaration wins in Schemas.classes_by_name (the compatibility check compares dicts, which ignores order) *)
+Definition int_enum_file : str := (* openapi_python_client/templates/int_enum.py.jinja *)
+  [111; 112; 101; 110; 97; 112; 105; 95; 112; 121; 116; 104; 111; 110; 95; 99; 108; 105; 101; 110; 116; 47; 116; 101; 109; 112; 108; 97; 116; 101; 115; 47; 105; 110; 116; 95; 101; 110; 117; 109; 46; 112; 121; 46; 106; 105; 110; 106; 97].
+Definition int_enum_iters : list str := [ (* enum.values.items() *) [101; 110; 117; 109; 46; 118; 97; 108; 117; 101; 115; 46; 105; 116; 101; 109; 115; 40; 41] ].
+Definition is_int_enum_site (s : loop_site) : bool := str_eqb (ls_file s) int_enum_file && mem_str (ls_iter s) int_enum_iters && ls_known s && is_output (ls_effect s).
+Definition known_int_enum_unsorted (s : loop_site) : bool := is_int_enum_site s && negb (ls_sorted s).
+Definition known_unsorted (s : loop_site) : bool := known_lazy_unsorted s || known_int_enum_unsorted s.
+Definition loop_ok_or_known (s : loop_site) : bool := loop_ok s || known_unsorted s.
+Definition int_enum_fixed (tbl : list loop_site) : bool := negb (existsb known_int_enum_unsorted tbl).
+(* true once no listed known unsorted site is left *)
+Definition known_fixed (tbl : list loop_site) : bool := negb (existsb known_unsorted tbl).
 (* true once the fix (| sort on the lazy_imports loops) is in the tree *)
 Definition lazy_fixed (tbl : list loop_site) : bool := negb (existsb known_lazy_unsorted tbl).
 (* the sites that write into generated files, as the sorted-flags consumed by render *)
